@@ -24,6 +24,10 @@ handlers echo (rule id, args, kwargs) as JSON.  Reverse clause: ``reverse_url`` 
 returned path full-matches the rule's own pattern with captures == ``str(arg)``; sent through the real
 server (with a Host for which the reference reaches the rule) it arrives at that rule with those
 arguments; if an earlier rule shadows it the case is only labelled.
+Rules are built as tuple / URLSpec(str) / Rule(PathMatches(str)) or from PRE-COMPILED patterns: URLSpec(re.compile(p + "$")),
+Rule(PathMatches(re.compile(p + "$"))) and URLSpec(re.compile(p)) without end anchor.  The meaning of an unanchored compiled
+pattern is not documented (PathMatches uses regex.match, i.e. a prefix match): the observation must agree with the
+reference under one of the two consistent readings (whole path / prefix) — EITHER, labelled compiled_unanchored_prefix_either.
 EITHER: captures that are not UTF-8 after unescaping (400 accepted, never another rule); rules with
 ``/?`` or an optional group are not "reversible" (ValueError accepted).
 
@@ -43,6 +47,11 @@ Sensitivity (quick tier, seed 1, one mutant at a time on a scratch copy; all cau
   M5 HostMatches matches request.host (not lower-cased/port-stripped) -> caught (C31.first_match, Host: WWW.Example.COM)
   M6 find_handler returns a nested router's None instead of falling through -> caught (C31.first_match, 404 instead of later rule)
   M7 PathMatches.reverse escapes with plus=True                 -> caught (C31.reverse_not_matching_own_rule: "x y" -> x+y)
+  M8 PathMatches._find_groups strips the end anchor with pattern.endswith("$") instead of _ends_with_anchor()
+     (only visible for a PRE-COMPILED pattern without anchor that ends in an escaped literal "$")
+       -> caught at seeds 1, 2, 3 after pre-compiled pattern objects were added as rule-construction forms 3-5
+          (C31.reverse_not_matching_own_rule: re.compile(r"/cost\\$") reversed to "/cost\\"); MISSED before, when rules
+          were only built from pattern strings.  replays/C31/compiled-escaped-dollar.json pins it.
 """
 import json
 import re
@@ -61,7 +70,8 @@ PROPERTY = "C31"
 READY = True
 RULE = (
     "Hypothesis rule trees (<=7 rules per list, <=3 in nested lists, depth <=2, Application or top-level RuleRouter shape, add_handlers "
-    "blocks, default_host, default handler) over 17 literal segments x 9 group forms, 6 requests per tree "
+    "blocks, default_host, default handler; rules built from pattern strings or pre-compiled regex objects with/without '$') "
+    "over 19 literal segments x 9 group forms, 6 requests per tree "
     "(paths instantiated from a rule of the tree then near-miss mutated, 13 Host forms) and <=3 reverse_url calls on "
     "named rules; non-trivial = >=2 leaf patterns of the tree match the request path, or a capture contains a "
     "percent-escape, or a reverse call has a literal '%' / non-ASCII argument; distinct = SHA-1 of the case"
@@ -80,7 +90,7 @@ LEVEL_TEXT = (
 SHARDS = 16
 
 # --------------------------------------------------------------------------- grammar
-LITS = ["a", "b", "item", "new", "a%20b", "x.y", "v1", "~u", "c+d", "100%", "p$", "k-9", "%7Eu", "a%2Fb", "e=f", "s*", "A"]
+LITS = ["a", "b", "item", "new", "a%20b", "x.y", "v1", "~u", "c+d", "100%", "p$", "k-9", "%7Eu", "a%2Fb", "e=f", "s*", "A", "b\\", "cost$"]
 GROUPS = {"seg": r"[^/]+", "num": r"\d+", "any": r".*", "low": r"[a-z]*"}
 SAMPLES = {
     "seg": ["x", "new", "12", "a%20b", "%C3%A9", "a+b", "a%2Fb", "%41", "%ff", "%00", "%25", "a.b", "~", "item", "%2B",
@@ -129,7 +139,7 @@ def pieces_s(draw):
             pieces.append(("grp", key, names.pop(0) if named else None))
             ngroups += 1
         if kind == "grplit":
-            pieces.append(("lit", draw(st.sampled_from(["-x", ".json", "%20", "$"]))))
+            pieces.append(("lit", draw(st.sampled_from(["-x", ".json", "%20", "$", "$"]))))
     if not named and draw(st.sampled_from([False] * 11 + [True])):
         pieces.append(("optnum",))
     # merge adjacent literals
@@ -142,7 +152,10 @@ def pieces_s(draw):
     return merged, draw(st.sampled_from([False] * 7 + [True]))
 
 
-leaf_s = st.tuples(st.just("leaf"), pieces_s(), st.booleans(), st.integers(0, 2)).map(
+# rule-construction form: 0 tuple, 1 URLSpec(str), 2 Rule(PathMatches(str)), 3 URLSpec(re.compile(p + "$")),
+# 4 URLSpec(re.compile(p)) -- a pre-compiled pattern WITHOUT end anchor, 5 Rule(PathMatches(re.compile(p + "$")))
+FORMS = [0, 0, 1, 1, 2, 3, 4, 4, 4, 5]
+leaf_s = st.tuples(st.just("leaf"), pieces_s(), st.booleans(), st.sampled_from(FORMS)).map(
     lambda t: ("leaf", t[1][0], t[1][1], t[2], t[3]))
 call_s = pieces_s().map(lambda t: ("call", t[0], t[1]))
 
@@ -348,8 +361,14 @@ class Builder:
                     out.append((pat, Marker, {"rid": rid}, name) if name else (pat, Marker, {"rid": rid}))
                 elif form == 1:
                     out.append(URLSpec(pat, Marker, {"rid": rid}, name=name))
-                else:
+                elif form == 2:
                     out.append(Rule(PathMatches(pat), Marker, {"rid": rid}, name))
+                elif form == 3:
+                    out.append(URLSpec(re.compile(pat + "$"), Marker, {"rid": rid}, name=name))
+                elif form == 4:
+                    out.append(URLSpec(re.compile(pat), Marker, {"rid": rid}, name=name))
+                else:
+                    out.append(Rule(PathMatches(re.compile(pat + "$")), Marker, {"rid": rid}, name))
             elif nd[0] == "call":
                 out.append(Rule(PathMatches(pattern_of(nd[1], nd[2])), make_callable(nd[-1])))
             elif nd[0] == "nest":
@@ -380,8 +399,10 @@ def host_name_of(host):
 
 
 class Ref:
-    def __init__(self, hn, path, xreal, quirk):
-        self.hn, self.path, self.xreal, self.quirk = hn, path, xreal, quirk
+    def __init__(self, hn, path, xreal, quirk, prefix_mode=False):
+        # prefix_mode: a pre-compiled pattern given without a trailing "$" (form 4) is undocumented; the two
+        # consistent readings are "whole path" (fullmatch) and "what regex.match does" (prefix match)
+        self.hn, self.path, self.xreal, self.quirk, self.prefix_mode = hn, path, xreal, quirk, prefix_mode
 
     def pmatch(self, pat):
         if self.quirk and pat.endswith("$"):
@@ -398,7 +419,11 @@ class Ref:
     def rules(self, nodes):
         for nd in nodes:
             if nd[0] in ("leaf", "call"):
-                m = self.pmatch(pattern_of(nd[1], nd[2]))
+                pat = pattern_of(nd[1], nd[2])
+                if nd[0] == "leaf" and nd[4] == 4 and self.prefix_mode:
+                    m = re.match(pat, self.path)
+                else:
+                    m = self.pmatch(pat)
                 if m:
                     return ("hit", nd[-1], nd[0], m)
             elif nd[0] == "nest":
@@ -536,6 +561,11 @@ def run_case(ctx, case):
         labels.add("top_rulerouter")
     leaf_pats = [pattern_of(nd[1], nd[2]) for nd, _ in leaves]
     dollar = has_dollar_tail(case)
+    has_unanchored = any(nd[0] == "leaf" and nd[4] == 4 for nd, _ in leaves)
+    if has_unanchored:
+        labels.add("compiled_unanchored_rule")
+    if any(nd[0] == "leaf" and nd[4] in (3, 5) for nd, _ in leaves):
+        labels.add("compiled_anchored_rule")
     if dollar:
         labels.add("dollar_tail_pattern")
 
@@ -585,7 +615,13 @@ def run_case(ctx, case):
             labels.add("with_query")
         if obs[0] == "unparsed":
             continue
-        if not verdict(exp, obs):
+        ok = verdict(exp, obs)
+        if not ok and has_unanchored:
+            exp_b = Ref(hn, path, xreal, False, True).route(case)
+            if verdict(exp_b, obs):
+                ok = True
+                labels.add("compiled_unanchored_prefix_either")
+        if not ok:
             sig = None
             if dollar and verdict(Ref(hn, path, xreal, True).route(case), obs):
                 sig = "C31.escaped_dollar_tail"
@@ -625,6 +661,10 @@ def run_case(ctx, case):
             labels.add("reverse_unrepresentable_skipped")
             continue
         labels.add("reverse")
+        if nd[4] in (3, 4, 5):
+            labels.add("reverse_compiled_pattern")
+            if pat.endswith("$"):
+                labels.add("reverse_compiled_escaped_dollar_tail")
         if any("%" in pc[1] for pc in pieces if pc[0] == "lit"):
             labels.add("reverse_with_percent_literal")
             nontrivial = True
@@ -653,7 +693,10 @@ def run_case(ctx, case):
         host = None
         for h in HOSTS:
             r = Ref(host_name_of(h), rpath, False, False).route(case)
-            if r[0] == "hit" and r[1] == idx:
+            if not (r[0] == "hit" and r[1] == idx):
+                continue
+            r2 = Ref(host_name_of(h), rpath, False, False, True).route(case) if has_unanchored else r
+            if r2[0] == "hit" and r2[1] == idx:
                 host = h
                 break
         if host is None:
@@ -672,12 +715,13 @@ def run_case(ctx, case):
 
 PARTS = {"main": run_case}
 REQUIRED = ["overlap_order", "nested_router", "host_rule", "reverse_with_percent_literal", "reverse_non_ascii",
-            "reverse_routed_back", "escaped_capture", "add_handlers", "default_host", "top_rulerouter", "callable_target"]
+            "reverse_routed_back", "escaped_capture", "add_handlers", "default_host", "top_rulerouter", "callable_target",
+            "compiled_unanchored_rule", "compiled_anchored_rule", "reverse_compiled_pattern", "reverse_compiled_escaped_dollar_tail"]
 
 
 def main(ctx):
     ctx.run_replays(PARTS)
-    ctx.explore(case_s(), run_case, ctx.n(1000, 80000), name="main")
+    ctx.explore(case_s(), run_case, ctx.n(800, 80000), name="main")
     for lab in REQUIRED:
         if not ctx.violations and not ctx.labels.get(lab):
             ctx.warnings.append("required label never hit: %s" % lab)
